@@ -83,7 +83,7 @@ pub fn exec_scheduled(case: &Case) -> Outcome {
                 let core3 = core2.clone();
                 let idx = QUERY_IDX.try_with(|i| *i).unwrap_or(99);
                 Box::pin(async move {
-                    if point == "engine:after_register" && idx != 99 {
+                    if point.starts_with("engine:") && idx != 99 {
                         let _ = core3.gated(ReqDesc { node: idx, op: OpKind::Pause, path: point.to_string(), detail: String::new() }, || async {}).await;
                     }
                 })
@@ -201,7 +201,9 @@ pub fn exec_threads(case: &Case) -> Outcome {
 
 /// One request of a client: `mode` 0 = QueryNode::query, 1 = QueryNode::query_stream (the
 /// subscription stays open until every client is done: its historical phase is what is
-/// compared), 2 = QueryNode::query_for_tenant under another tenant.
+/// compared), 2 = QueryNode::query_for_tenant under another tenant, 3 = the Flight SQL service
+/// (get_flight_info, then do_get with the ticket it returned; only on a warmed node - see `warm` -
+/// otherwise it runs as mode 0).
 #[derive(Clone, Debug, Serialize, Deserialize)]
 pub struct Step {
     pub client: u8,
@@ -216,6 +218,10 @@ pub struct PlanCase {
     pub plan: Vec<Step>,
     pub adaptive: bool,
     pub schedule: Vec<u16>,
+    /// the node has answered one statement over all chunks before the plan starts (the placeholder
+    /// table of a fresh node is gone; what a fresh node does with each interface is C04's business)
+    #[serde(default)]
+    pub warm: bool,
 }
 
 type Chan = Arc<parking_lot::Mutex<Option<cardinalsin::ingester::BroadcastChannel>>>;
@@ -232,8 +238,18 @@ enum Pending {
     Live(tokio::sync::mpsc::Receiver<cardinalsin::Result<arrow_array::RecordBatch>>),
 }
 
-async fn start_step(node: &cardinalsin::query::QueryNode, sql: &str, mode: u8) -> Pending {
-    match mode % 3 {
+async fn flight_sql(node: &Arc<cardinalsin::query::QueryNode>, sql: &str) -> Result<Vec<String>, String> {
+    let svc = cardinalsin::api::query::flight_sql::FlightSqlQueryService::new(node.clone());
+    let info = svc.get_flight_info(sql).await.map_err(|e| format!("get_flight_info: {:?}", e))?;
+    let ticket = info.endpoint.first().and_then(|e| e.ticket.clone()).ok_or("no ticket")?;
+    let data = svc.do_get(&ticket).await.map_err(|e| format!("do_get: {:?}", e))?;
+    let batches = arrow_flight::utils::flight_data_to_batches(&data).map_err(|e| format!("decode: {:?}", e))?;
+    Ok(result_rows(&batches))
+}
+
+async fn start_step(node: &Arc<cardinalsin::query::QueryNode>, sql: &str, mode: u8) -> Pending {
+    match mode % 4 {
+        3 => Pending::Done(flight_sql(node, sql).await),
         1 => match node.query_stream(sql).await {
             Ok(rx) => Pending::Live(rx),
             Err(e) => Pending::Done(Err(format!("{:?}", e))),
@@ -257,8 +273,29 @@ async fn finish_step(p: Pending) -> Result<Vec<String>, String> {
     }
 }
 
-async fn plan_solo(env: &Env, adaptive: bool, sql: &str, mode: u8) -> Result<Vec<String>, String> {
+const WARM_SQL: &str = "SELECT count(*) AS n FROM metrics WHERE timestamp >= 0 AND timestamp <= 9000000000000000000";
+
+async fn warm_up(case_ts_type: u8, node: &cardinalsin::query::QueryNode) {
+    let sql = if case_ts_type % 2 == 0 { WARM_SQL.to_string() } else { "SELECT count(*) AS n FROM metrics WHERE timestamp >= TIMESTAMP '1971-01-01T00:00:00Z' AND timestamp <= TIMESTAMP '2200-01-01T00:00:00Z'".to_string() };
+    let _ = node.query(&sql).await;
+}
+
+/// mode as executed: Flight SQL only on a warmed node
+fn eff_mode(case: &PlanCase, mode: u8) -> u8 {
+    let m = mode % 4;
+    if m == 3 && !case.warm {
+        0
+    } else {
+        m
+    }
+}
+
+async fn plan_solo(case: &PlanCase, env: &Env, sql: &str, mode: u8) -> Result<Vec<String>, String> {
+    let adaptive = case.adaptive;
     let (node, chan) = plan_node(env, adaptive).await;
+    if case.warm {
+        warm_up(case.data.ts_type, &node).await;
+    }
     let p = start_step(&node, sql, mode).await;
     chan.lock().take();
     finish_step(p).await
@@ -270,7 +307,7 @@ fn spawn_plan(case: &PlanCase, sqls: &[String], node: Arc<cardinalsin::query::Qu
     let barrier = Arc::new(tokio::sync::Barrier::new(clients.len()));
     let mut handles = Vec::new();
     for c in clients {
-        let steps: Vec<(usize, String, u8)> = case.plan.iter().enumerate().filter(|(_, s)| s.client % 4 == c).map(|(i, s)| (i, sqls[s.query as usize % sqls.len()].clone(), s.mode)).collect();
+        let steps: Vec<(usize, String, u8)> = case.plan.iter().enumerate().filter(|(_, s)| s.client % 4 == c).map(|(i, s)| (i, sqls[s.query as usize % sqls.len()].clone(), eff_mode(case, s.mode))).collect();
         let (node, chan, results, barrier) = (node.clone(), chan.clone(), results.clone(), barrier.clone());
         handles.push(tokio::spawn(QUERY_IDX.scope(c as u32, async move {
             let mut pend = Vec::new();
@@ -292,7 +329,7 @@ fn spawn_plan(case: &PlanCase, sqls: &[String], node: Arc<cardinalsin::query::Qu
 fn judge_plan(case: &PlanCase, sqls: &[String], solo: &std::collections::BTreeMap<(usize, u8), Result<Vec<String>, String>>, got: &[Option<Result<Vec<String>, String>>], out: &mut Outcome) {
     for (i, st) in case.plan.iter().enumerate() {
         let qi = st.query as usize % sqls.len();
-        let s = &solo[&(qi, st.mode % 3)];
+        let s = &solo[&(qi, eff_mode(case, st.mode))];
         let g = match &got[i] {
             Some(g) => g,
             None => {
@@ -301,7 +338,7 @@ fn judge_plan(case: &PlanCase, sqls: &[String], solo: &std::collections::BTreeMa
             }
         };
         if g != s {
-            let kind = ["query", "subscription-historical", "query-for-tenant"][(st.mode % 3) as usize];
+            let kind = ["query", "subscription-historical", "query-for-tenant", "flight-sql"][eff_mode(case, st.mode) as usize];
             out.set_fail(
                 format!("concurrent-answer-differs-from-solo:{}", kind),
                 format!("step {} (client {}, {}): {}\n alone: {:?}\n among the other requests of the plan {:?}: {:?}", i, st.client % 4, kind, sqls[qi], s.as_ref().map(|v| v.len()).map_err(|e| e.clone()), case.plan, g.as_ref().map(|v| v.len()).map_err(|e| e.clone())),
@@ -325,15 +362,19 @@ async fn plan_prepare(case: &PlanCase, out: &mut Outcome) -> Option<(Env, Vec<St
     let mut solo = std::collections::BTreeMap::new();
     for st in &case.plan {
         let qi = st.query as usize % sqls.len();
-        if !solo.contains_key(&(qi, st.mode % 3)) {
-            let r = plan_solo(&env, case.adaptive, &sqls[qi], st.mode).await;
-            solo.insert((qi, st.mode % 3), r);
+        let m = eff_mode(case, st.mode);
+        if !solo.contains_key(&(qi, m)) {
+            let r = plan_solo(case, &env, &sqls[qi], m).await;
+            solo.insert((qi, m), r);
         }
     }
     let distinct = solo.values().map(|r| format!("{:?}", r)).collect::<std::collections::BTreeSet<_>>().len();
     let clients: std::collections::BTreeSet<u8> = case.plan.iter().map(|s| s.client % 4).collect();
     out.nontrivial = distinct >= 2 && case.plan.len() >= 2;
-    if case.plan.iter().any(|s| s.mode % 3 == 1) && case.plan.iter().any(|s| s.mode % 3 != 1) {
+    if case.plan.iter().any(|s| eff_mode(case, s.mode) == 3) {
+        out.class("flight-sql-step");
+    }
+    if case.plan.iter().any(|s| eff_mode(case, s.mode) == 1) && case.plan.iter().any(|s| eff_mode(case, s.mode) != 1) {
         out.class("subscription-among-queries");
     }
     if clients.len() >= 2 {
@@ -372,6 +413,11 @@ pub fn exec_plan_scheduled(case: &PlanCase) -> Outcome {
         }
         core.set_scheduled(true);
         let (node, chan) = plan_node(&env, case.adaptive).await;
+        if case.warm {
+            core.set_scheduled(false);
+            warm_up(case.data.ts_type, &node).await;
+            core.set_scheduled(true);
+        }
         let results = Arc::new(parking_lot::Mutex::new(vec![None; case.plan.len()]));
         let handles = spawn_plan(case, &sqls, node, chan, results.clone());
         let run = drive_schedule(&core, &handles, &case.schedule, None, 4000).await;
@@ -404,6 +450,9 @@ pub fn exec_plan_threads(case: &PlanCase) -> Outcome {
         };
         for _round in 0..10 {
             let (node, chan) = plan_node(&env, case.adaptive).await;
+            if case.warm {
+                warm_up(case.data.ts_type, &node).await;
+            }
             let results = Arc::new(parking_lot::Mutex::new(vec![None; case.plan.len()]));
             let handles = spawn_plan(case, &sqls, node, chan, results.clone());
             for h in handles {
@@ -426,11 +475,12 @@ fn plan_strategy(_t: Tier) -> BoxedStrategy<PlanCase> {
             d
         }),
         prop::collection::vec(simple_query(), 2..4),
-        prop::collection::vec((0u8..3, 0u8..4, prop_oneof![4 => Just(0u8), 3 => Just(1u8), 1 => Just(2u8)]).prop_map(|(client, query, mode)| Step { client, query, mode }), 2..7),
+        prop::collection::vec((0u8..3, 0u8..4, prop_oneof![4 => Just(0u8), 3 => Just(1u8), 1 => Just(2u8), 2 => Just(3u8)]).prop_map(|(client, query, mode)| Step { client, query, mode }), 2..7),
         any::<bool>(),
         prop::collection::vec(any::<u16>(), 0..32),
+        any::<bool>(),
     )
-        .prop_map(|(data, queries, plan, adaptive, schedule)| PlanCase { data, queries, plan, adaptive, schedule })
+        .prop_map(|(data, queries, plan, adaptive, schedule, warm)| PlanCase { data, queries, plan, adaptive, schedule, warm })
         .boxed()
 }
 
@@ -454,7 +504,7 @@ pub fn def() -> PropDef {
     PropDef {
         id: "C10",
         level: "exploration",
-        rule: "datasets of 4-30 rows over six hours in 1-6 chunks; 2-4 concurrent queries (QueryNode::query, or the streaming executor's historical phase) with generated disjoint / nested / equal windows, label / metric predicates and projections / aggregates on one query node; scheduled: a generated schedule decides the order in which the tasks pass the pause point between table registration and statement planning (current_thread runtime, virtual clock); threads (sampled): the same queries started behind a barrier on an 8-worker runtime, 30 rounds. Oracle: each concurrent answer == the answer of the same query run alone on a fresh node. Non-trivial = at least two of the queries have different solo answers. node-plans: 1-3 clients each issuing a sequence of 1-6 requests through the node's own entry points - QueryNode::query, QueryNode::query_stream (the subscription stays open until every client is done; its historical phase is compared) and QueryNode::query_for_tenant under a second tenant, adaptive indexing on or off - over 2-3 statements, so statements are repeated after other requests selected other chunks and subscriptions are live while queries run; scheduled at the engine's pause points (and sampled on 8 threads, 10 rounds).",
+        rule: "datasets of 4-30 rows over six hours in 1-6 chunks; 2-4 concurrent queries (QueryNode::query, or the streaming executor's historical phase) with generated disjoint / nested / equal windows, label / metric predicates and projections / aggregates on one query node; scheduled: a generated schedule decides the order in which the tasks pass the pause point between table registration and statement planning (current_thread runtime, virtual clock); threads (sampled): the same queries started behind a barrier on an 8-worker runtime, 30 rounds. Oracle: each concurrent answer == the answer of the same query run alone on a fresh node. Non-trivial = at least two of the queries have different solo answers. node-plans: 1-3 clients each issuing a sequence of 1-6 requests through the node's own entry points - QueryNode::query, QueryNode::query_stream (the subscription stays open until every client is done; its historical phase is compared) and QueryNode::query_for_tenant under a second tenant, the Flight SQL service (get_flight_info + do_get, on a node that has answered a statement before), adaptive indexing on or off - over 2-3 statements, so statements are repeated after other requests selected other chunks and subscriptions are live while queries run; scheduled at the engine's pause points (and sampled on 8 threads, 10 rounds).",
         assumptions: &["the solo answer is the specification (its equality with a full scan is C04)", "real-thread interleavings are only sampled"],
         subs: || {
             vec![
